@@ -25,8 +25,8 @@ META = {
     "level_note": "Trusted: Coq kernel + vm_compute, py2coq translator, Word256.v (tied to pyrevm by C14's wordtie), hand models "
                   "tied by exact-output differential (exhaustive on the grid, sampled beyond). Memory model without gas: "
                   "merges over negative literal offsets are declined (no claim). Per-pass hypotheses on uninterpreted "
-                  "instructions (0/1 results of CALL-like ops, label names not inspected) and unique labels. No single "
-                  "theorem for the composed optimize_assembly loop.",
+                  "instructions (0/1 results of CALL-like ops, label names not inspected) and unique labels. optimize_assembly as a whole is "
+                  "proved under the conjunction of these hypotheses (shown satisfiable).",
     "technique": "Coq proof over py2coq-translated source and hand models + exact-output differential + EVM differential",
 }
 
@@ -467,9 +467,9 @@ def run(ctx):
     b = {"ok": False}
     files = ["C15/GenUtils.v", "C15/Optimizer.v", "C15/OptTree.v", "C15/FoldSound.v", "C15/PropsFold.v", "C15/OptSound.v",
              "C15/OptTreeSound.v", "C15/MergeSound.v", "C15/MemInst.v", "C15/PropsOpt.v", "C15/Peephole.v", "C15/PeepholeSound.v", "C15/JumpOpt.v", "C15/JumpSem.v",
-             "C15/JumpSound.v", "C15/JumpSound2.v", "C15/PropsPeephole.v"]
+             "C15/JumpSound.v", "C15/JumpSound2.v", "C15/JumpSound3.v", "C15/PropsPeephole.v"]
     static = ["C15/Peephole.v", "C15/PeepholeSound.v", "C15/JumpOpt.v", "C15/JumpSem.v", "C15/JumpSound.v",
-              "C15/JumpSound2.v", "C15/Bytes.v"]
+              "C15/JumpSound2.v", "C15/JumpSound3.v", "C15/Bytes.v"]
     if gen_err is None:
         # static files (no dependence on generated code) are compiled by setup; rebuilt here only when stale
         bs = ctx.coq_build(static, force=False)
